@@ -57,6 +57,27 @@ def oracle_build(sizes, vals, is_spectral, ind, val):
     return None
 
 
+def scribble(*arrays):
+    """the caller owns what a builder returned: overwriting it must not influence any later call (every size tuple is
+    requested several times in a run)"""
+    for a in arrays:
+        try:
+            a[...] = 7
+        except (ValueError, TypeError):
+            pass
+
+
+def fastest_first(sizes):
+    N = int(np.prod(sizes))
+    n = np.arange(N, dtype=np.int64)
+    rows = []
+    stride = 1
+    for sz in sizes:
+        rows.append((n // stride) % sz)
+        stride *= sz
+    return np.array(rows)
+
+
 def run(ctx, build):
     import pyUSID as usid
     from pyUSID.io import anc_build_utils as abu
@@ -85,7 +106,13 @@ def run(ctx, build):
         if 1 in sizes:
             hist['with_unit_dim'] += 1
         for is_spectral in (True, False):
-            ind, val = abu.build_ind_val_matrices([v for v in vals], is_spectral=is_spectral)
+            try:
+                ind, val = abu.build_ind_val_matrices([v for v in vals], is_spectral=is_spectral)
+            except Exception as e:
+                out.violations.append({'call_site': 'anc_build_utils.build_ind_val_matrices', 'input_class': 'any', 'failure_mode': 'raises',
+                                       'what': 'sizes %s is_spectral %s: %r (after earlier calls whose results were overwritten by the caller)' % (sizes, is_spectral, e),
+                                       'case': {'sizes': sizes, 'is_spectral': is_spectral, 'history': 'same sizes requested before; returned arrays overwritten'}})
+                continue
             hist['build'] += 1
             bcases.append(cpair(clist([[int(round(float(x) * 4)) for x in v] for v in vals], lambda r: clist(r, cZ)),
                                 cbool(is_spectral), cmat(mat(ind), cnat), cmat(z4(val), cZ)))
@@ -93,6 +120,7 @@ def run(ctx, build):
             mode = oracle_build(sizes, vals, is_spectral, ind, val)
             if mode is None and (ind.dtype != np.uint32 or val.dtype != np.float32):
                 mode = 'wrong_dtype'
+            scribble(ind, val)
             if mode:
                 out.violations.append({'call_site': 'anc_build_utils.build_ind_val_matrices', 'input_class': 'any',
                                        'failure_mode': mode, 'what': 'sizes %s is_spectral %s' % (sizes, is_spectral),
@@ -103,8 +131,15 @@ def run(ctx, build):
                 grp = h5.create_group('g%05d' % gi)
                 gi += 1
                 dims = [usid.Dimension('L%d' % d, 'U%d' % d, vals[d]) for d in range(k)]
-                with common.quiet():
-                    hi, hv = write_ind_val_dsets(grp, dims, is_spectral=is_spectral, slow_to_fast=s2f)
+                try:
+                    with common.quiet():
+                        hi, hv = write_ind_val_dsets(grp, dims, is_spectral=is_spectral, slow_to_fast=s2f)
+                except Exception as e:
+                    out.violations.append({'call_site': 'hdf_utils.write_ind_val_dsets', 'input_class': 'any', 'failure_mode': 'raises',
+                                           'what': 'sizes %s is_spectral %s slow_to_fast %s: %r' % (sizes, is_spectral, s2f, e),
+                                           'case': {'sizes': sizes, 'is_spectral': is_spectral, 'slow_to_fast': s2f,
+                                                    'history': 'same sizes requested before; returned arrays overwritten'}})
+                    continue
                 base = 'Spectroscopic_' if is_spectral else 'Position_'
                 ri, rv = grp[base + 'Indices'], grp[base + 'Values']
                 oi, ov = ri[()], rv[()]
@@ -167,6 +202,8 @@ def run(ctx, build):
                 obs = None
                 hist['make_indices_rejected'] += 1
             hist['make_indices'] += 1
+            if obs is not None:
+                scribble(r)
             mcases.append(cpair(clist(sizes, cnat), cbool(is_pos), copt(obs, lambda m: cmat(m, cnat))))
             mmeta.append({'num_steps': sizes, 'is_position': is_pos, 'observed': obs})
             if obs is not None and all(s >= 2 for s in sizes):
@@ -185,6 +222,35 @@ def run(ctx, build):
                     out.violations.append({'call_site': 'anc_build_utils.make_indices_matrix', 'input_class': 'any',
                                            'failure_mode': 'not_cartesian_fastest_first', 'what': str(sizes),
                                            'case': {'sizes': sizes, 'is_position': is_pos}})
+    # designed, seed-independent: a long fast dimension under a short slow one, every length up to a bound (index arithmetic
+    # done in floating point must not slip at a block boundary); integer oracle for all, the model for a few
+    top = 260 if ctx.quick() else 1200
+    in_model = {49, 98, 103, 107, 161, 187, 196}
+    big = [[q, 2] for q in range(5, top + 1)] + [[7, 7, 3], [7, 14, 2], [14, 14, 2], [3, 49, 2], [2, 103, 3]]
+    hist['long_dimension_cases'] = 0
+    for sizes in big:
+        exp = fastest_first(sizes)
+        hist['long_dimension_cases'] += 1
+        for is_pos in (True, False):
+            r = abu.make_indices_matrix(list(sizes), is_position=is_pos)
+            a = np.array(r, dtype=np.int64)
+            a = a.T if is_pos else a
+            if a.shape != exp.shape or not np.array_equal(a, exp):
+                out.violations.append({'call_site': 'anc_build_utils.make_indices_matrix', 'input_class': 'any',
+                                       'failure_mode': 'not_cartesian_fastest_first', 'what': str(sizes),
+                                       'case': {'sizes': sizes, 'is_position': is_pos}})
+            if sizes[0] in in_model and len(sizes) == 2 and is_pos:
+                mcases.append(cpair(clist(sizes, cnat), cbool(is_pos), copt(mat(r), lambda m: cmat(m, cnat))))
+                mmeta.append({'num_steps': sizes, 'is_position': is_pos, 'observed': 'long dimension'})
+            scribble(r)
+        vals = [np.arange(sz, dtype=np.float64) * 0.5 for sz in sizes]
+        ind, val = abu.build_ind_val_matrices([v for v in vals], is_spectral=True)
+        if np.asarray(ind).shape != exp.shape or not np.array_equal(np.asarray(ind, dtype=np.int64), exp) or \
+                not np.array_equal(np.asarray(val, dtype=np.float64), exp * 0.5):
+            out.violations.append({'call_site': 'anc_build_utils.build_ind_val_matrices', 'input_class': 'any',
+                                   'failure_mode': 'index_not_cartesian_fastest_first', 'what': 'sizes %s' % sizes,
+                                   'case': {'sizes': sizes, 'is_spectral': True}})
+        scribble(ind, val)
     h5.close()
     bad1, e1 = common.coq_eval_cases(ctx, HEADER, bcases, 'check08b', case_type='case08b', tag='b')
     bad2, e2 = common.coq_eval_cases(ctx, HEADER, wcases, 'check08w', case_type='case08w', tag='w')
@@ -195,7 +261,7 @@ def run(ctx, build):
     out.distinct_nontrivial = len(distinct)
     out.rule = ('size tuples with 1..4 dimensions, sizes 1..4 (%s), three value families (uniform, non-uniform, non-monotone; dyadic), '
                 'is_spectral F/T, slow_to_fast F/T, raw h5py read-back of datasets and labels/units; non-trivial = >=2 dimensions with '
-                'unequal sizes (distinct (sizes, is_spectral, slow_to_fast))' % ('exhaustive: all 340' if not ctx.quick() else 'all with <=2 dims + 90 sampled'))
+                'unequal sizes (distinct (sizes, is_spectral, slow_to_fast)); plus every (q, 2) with q = 5..260 (thorough 1200) and five triples through both builders against an integer oracle, returned arrays overwritten after every call' % ('exhaustive: all 340' if not ctx.quick() else 'all with <=2 dims + 90 sampled'))
     out.histogram = hist
     out.trusted = ['uint32 / float32 casts (sizes < 2^32, dyadic values exactly representable)', 'numpy tile/repeat/flipud/fliplr as modelled in Base/Matrix.v']
     return out
